@@ -40,6 +40,11 @@ HISTORY = {
     "C06-join-loop-assigned-vars-hashmap": "missed at first: every for-join subject assigned one variable; subjects with several assigned variables in for-join bodies, branches and arms added",
     "C07-bare-cr-counts-as-line": "missed at first: carriage returns only occurred as single bytes; CR-only / CRLF / CR CR LF variants of corpus programs, whole and cut at every token boundary, added",
     "C09-signed-range-check-wrapping-cast": "missed at first: no decimal above i64::MAX was ever given for a signed type; 2^64-1, 2^63 and the two's complement spelling of negative values added",
+    "C11-export-drops-zero-bit-parties": "missed at first: no exported program had a zero-bit party; four such programs and a comparison of the re-imported party sizes added",
+    "C12-repeat-const-zero-skips-element": "missed at first: repeat literals only had pure elements; use template RepeatFailing (element with a side effect and a division, sizes incl. 0) added",
+    "C13-eq-circuit-pairwise-drops-odd": "missed at first: all key types were 8 or 16 bits wide; a 24-bit key type with 0 and every single-bit key added",
+    "C14-single-stmt-block-no-scope": "missed at first: every block with a shadowing binding had further statements; blocks / branches / arms / loop bodies whose only statement is a shadowing binding added to family X",
+    "C17-mod-accepts-bool-operands": "missed at first: operands were replaced, never operators; rule OperatorKind (arithmetic operator on Boolean operands, logical operator on numbers) added",
     "C17-match-arms-share-scope": "missed at first: UseAfterScope only covered loop variables and block locals; replaced by a reference model of lexical scoping (every use x every name bound elsewhere but not in scope)",
 }
 rows = []
